@@ -174,8 +174,18 @@ pub struct ExecOut {
 /// write `data` with write_all semantics, piece by piece, counting what the writer accepted
 fn do_write<W: Write>(w: &mut W, data: &[u8], accepted: &mut u64, retries: &mut u32) -> Result<(), std::io::Error> {
     let mut off = 0usize;
+    // the provided `write_vectored` is a way of writing too (a type may override it): used for some pieces,
+    // keyed on the piece itself so that the choice replays
+    let vectored = data.len() % 5 == 3;
     while off < data.len() {
-        match w.write(&data[off..]) {
+        let rest = &data[off..];
+        let r = if vectored && rest.len() >= 2 {
+            let (a, b) = rest.split_at(rest.len() / 3 + 1);
+            w.write_vectored(&[std::io::IoSlice::new(a), std::io::IoSlice::new(&[]), std::io::IoSlice::new(b)])
+        } else {
+            w.write(rest)
+        };
+        match r {
             Ok(0) => return Err(std::io::Error::new(std::io::ErrorKind::WriteZero, "failed to write whole buffer")),
             Ok(n) => {
                 off += n;
